@@ -15,6 +15,7 @@
 #include <hll.hpp>
 #include <unordered_set>
 #include <unordered_map>
+#include <memory>
 
 namespace vf {
 namespace hllm {
@@ -314,6 +315,70 @@ inline const std::vector<RareKey>& rare_keys() {
     }
   }
   return keys;
+}
+
+// ---------------------------------------------------------------- compact image of a coupon-mode sketch
+// LIST: 8-byte preamble (count in byte 6) then `count` coupons; SET: 12-byte preamble (count as int at 8) then the coupons
+inline Decoded decode_compact(const uint8_t* p, size_t n) {
+  Decoded d;
+  if (n < 8) { d.err = "compact image shorter than 8 bytes"; return d; }
+  if (p[1] != 1 || p[2] != 7) { d.err = "compact image: bad serial version / family"; return d; }
+  d.lg_k = p[3];
+  if (!(p[5] & 8)) { d.err = "compact flag not set in a compact image"; return d; }
+  d.empty_flag = (p[5] & 4) != 0;
+  d.mode = static_cast<int>(p[7] & 3); d.type = static_cast<int>((p[7] >> 2) & 3);
+  if (d.mode == M_HLL) return d;                       // registers of compact HLL images are not decoded here
+  if (d.mode != M_LIST && d.mode != M_SET) { d.err = "compact image: invalid mode"; return d; }
+  const size_t start = d.mode == M_LIST ? 8 : 12;
+  if (n < start || (n - start) % 4 != 0) { d.err = "compact coupon image has a ragged length " + std::to_string(n); return d; }
+  d.stored_count = d.mode == M_LIST ? p[6] : rd_u32(p + 8);
+  for (size_t i = 0; i < (n - start) / 4; ++i) d.coupons.push_back(rd_u32(p + start + 4 * i));
+  std::sort(d.coupons.begin(), d.coupons.end());
+  d.duplicate_coupon = std::adjacent_find(d.coupons.begin(), d.coupons.end()) != d.coupons.end();
+  return d;
+}
+
+// ---------------------------------------------------------------- "the single sketch that saw the same items" in coupon mode
+// In LIST/SET mode the estimate is a deterministic function of the number of distinct coupons held, and the mode of a
+// lazily started sketch is a function of (lg_k, number of distinct coupons).  Both are read off plain library sketches
+// fed a harness stream whose distinct-coupon count is tracked with the reference hash (public API only; the mode is
+// told from get_updatable_serialization_bytes(): 40 = LIST, 40 + 2^lg_k = HLL_8 array, anything else = SET).
+struct SingleSketchRef {
+  std::unique_ptr<datasketches::hll_sketch> sk;
+  std::unordered_set<uint32_t> seen;
+  uint64_t next = 0;
+  std::vector<double> est;        // est[n] = estimate while holding n distinct coupons (coupon mode only)
+  std::vector<int8_t> mode;       // mode[n]
+  bool reached_hll = false;
+  unsigned lg_k = 0;
+  void init(unsigned lgk) {
+    lg_k = lgk; sk.reset(new datasketches::hll_sketch(static_cast<uint8_t>(lgk), datasketches::HLL_8, false));
+    est.assign(1, sk->get_estimate()); mode.assign(1, M_LIST);
+  }
+  int cur_mode() const {
+    const uint32_t b = sk->get_updatable_serialization_bytes();
+    return b == 40 ? M_LIST : (b == 40u + (1u << lg_k) ? M_HLL : M_SET);
+  }
+  void grow_to(size_t n) {
+    while (est.size() <= n && !reached_hll) {
+      const uint64_t x = (next++) * 0x9e3779b97f4a7c15ULL + 99;
+      const uint32_t c = coupon_of_hash(ref_hash_u64(x, HLL_HASH_SEED));
+      sk->update(x);
+      if (!seen.insert(c).second) continue;
+      const int m = cur_mode();
+      mode.push_back(static_cast<int8_t>(m));
+      est.push_back(sk->get_estimate());
+      if (m == M_HLL) reached_hll = true;
+    }
+  }
+  int mode_for(size_t n) { grow_to(n); return n < mode.size() ? mode[n] : M_HLL; }
+  // estimate of a coupon-mode sketch holding n distinct coupons; false if a sketch of this lg_k is no longer in coupon mode
+  bool estimate_for(size_t n, double* out) { grow_to(n); if (n >= est.size() || mode[n] == M_HLL) return false; *out = est[n]; return true; }
+};
+inline SingleSketchRef& single_sketch_ref(unsigned lg_k) {
+  static std::unique_ptr<SingleSketchRef> refs[22];
+  if (!refs[lg_k]) { refs[lg_k].reset(new SingleSketchRef()); refs[lg_k]->init(lg_k); }
+  return *refs[lg_k];
 }
 
 inline bool rel_eq(double a, double b, double tol) {
